@@ -37,7 +37,11 @@ def new_run():
         "witness satisfies (satisfiable by construction; unique fields are asked "
         "for at most as many rows as satisfying values are known; ordered bounds "
         "are put exactly on the zero of the dtype class 30% of the time, time "
-        "arguments are handed over as pandas / datetime / numpy objects; custom "
+        "arguments are handed over as pandas / datetime / numpy objects; the "
+        "arguments of checks on INTEGER fields are written as floats ~30% of the "
+        "time - the same integer (3.0) or a number with a fraction that admits the "
+        "same integers (ge 2.5, le -2.5, in_range(0.5, 9.5), ne 2.5, isin / notin "
+        "lists that also hold fractions), in first and in chained position; custom "
         "checks: element-wise, vectorised, aggregates that hold for every subset "
         "(all) and aggregates whose verdict depends on WHICH elements are present "
         "(count, nunique, any, mean - also on nullable fields and frame-wide), "
@@ -52,7 +56,10 @@ def new_run():
         "plain columns; the four nullable x unique combinations in equal shares, "
         "mostly dtypes that can hold nulls, mostly explicit sizes >= 2 so that the "
         "null mask is applied; variants with frame-level checks, frame-level dtype, "
-        "frame-level unique=[...] and an index component) and a fixed directed corpus (one tiny case per "
+        "frame-level unique=[...] and an index component); frame schemas carry the "
+        "schema-wide column options ordered=True (25% / 40% in the regex family, "
+        "regex columns declared ahead of, between and behind plain columns) and "
+        "strict=True / 'filter'; and a fixed directed corpus (one tiny case per "
         "call site known to emit invalid data or sensitive to the order of the "
         "strategy's steps; two entries are sequences). One evaluation = one case; every "
         "draw of the case is validated by the producing schema (a rejection is "
@@ -74,7 +81,13 @@ def new_run():
          "'<U' arrays, which hypothesis fills, treat trailing NULs as padding and "
          "pandas' uniqueness test compares strings up to the first NUL (generated "
          "string witnesses avoid backslash-zero; one directed case visits the "
-         "region; such rejections are counted as undecided)"])
+         "region; such rejections are counted as undecided); for the same reason "
+         "duplicates in a unique STRING field are only judged when the chain spells "
+         "the values out (isin / eq): elsewhere two stored strings may have been "
+         "drawn as distinct ones that differ in trailing NULs only",
+         "integer fields whose FIRST check is a bound with a fraction: the unchanged "
+         "tree reports (hypothesis InvalidArgument) instead of drawing; the report is "
+         "counted (ran:int_fractional_bound_as_base), only emitted data is judged"])
 
 
 # --------------------------------------------------------------------------
@@ -400,6 +413,9 @@ def classify(case, fl, d):
                 f["name"] == c and f["cls"] == "str" for f in case["fields"])]
             if any(_nul_explains_duplicates(x) for x in strs):
                 return NOT_JUDGED_NUL
+            if any(f["name"] in case["df_unique"] and f["cls"] == "str"
+                   and _trailing_nul_possible(f) for f in case["fields"]):
+                return NOT_JUDGED_NUL
         except Exception:               # noqa: BLE001
             pass
     if f is None:
@@ -432,6 +448,8 @@ def classify(case, fl, d):
                     return "null-mask-after-unique-emits-duplicate-nulls:regex-expanded-column"
                 return "null-mask-after-unique-emits-duplicate-nulls"
         if cls == "str" and any(x is not None and _nul_explains_duplicates(x) for x in datas):
+            return NOT_JUDGED_NUL
+        if cls == "str" and _trailing_nul_possible(f):
             return NOT_JUDGED_NUL
         return None
 
@@ -484,6 +502,14 @@ def classify(case, fl, d):
     if k in ("ne", "notin") and chk.get("as") == "py" and cls in ("dt", "td"):
         if all(any(_same(v, e) for e in _args_of(chk)) for v in vals):
             return f"{k}_strategy-python-time-value-never-equals-numpy-element"
+
+    # isin_strategy maps the allowed values to the field's numpy type: a value
+    # with a fraction in the list of an INTEGER field is emitted truncated
+    # (2.5 -> 2), a value the list does not contain
+    if k == "isin" and cls == "int":
+        fr = [x for x in a["allowed_values"] if G.is_fractional(x)]
+        if fr and all(any(_same(v, int(x)) for x in fr) for v in vals):
+            return "isin_strategy-casts-non-integral-allowed-value-to-integer-dtype"
 
     shifted = cls == "dt" and G.tz_of(f["dtype"]) not in (None, "UTC") and via_numpy_column
 
@@ -578,6 +604,15 @@ def _nul_explains_duplicates(x):
         return all(any("\x00" in v for v in g) for g in groups.values())
     except Exception:                   # noqa: BLE001
         return False
+
+
+def _trailing_nul_possible(f):
+    """the strategy of the string field draws from an alphabet that contains
+    NUL (no isin / eq in the chain, which spell the values out): hypothesis
+    makes the elements unique BEFORE they are stored in a numpy '<U' array,
+    where "x" and "x" + NULs become the same string - duplicates among the
+    stored strings carry no trace of that and cannot be judged"""
+    return not any(c["k"] in ("isin", "eq") for c in f["checks"])
 
 
 def _joint_unique_null_duplicates(case, d):
@@ -683,6 +718,21 @@ def count_case_classes(run, case, prefix):
             if c["k"] == "in_range" and f["cls"] == "int" and not (
                     a["include_min"] and a["include_max"]):
                 run.count(f"{prefix}int_in_range_exclusive_bound")
+            if f["cls"] == "int" and c["k"] in ("gt", "ge", "lt", "le", "in_range"):
+                bs = [a[n] for n in ("min_value", "max_value") if isinstance(a.get(n), float)]
+                if bs:
+                    how = "fractional" if any(G.is_fractional(x) for x in bs) else "integral"
+                    run.count(f"{prefix}int_bound_given_as_float:{how}")
+                    run.count(f"{prefix}int_bound_given_as_float:{how}:"
+                              f"{'base' if i == 0 else 'chained'}:{c['k']}")
+            if f["cls"] == "int" and c["k"] in ("eq", "ne", "isin", "notin"):
+                xs = list(a.values())[0]
+                xs = [x for x in (xs if isinstance(xs, list) else [xs]) if isinstance(x, float)]
+                if xs:
+                    how = "fractional" if any(G.is_fractional(x) for x in xs) else "integral"
+                    run.count(f"{prefix}int_value_given_as_float:{how}")
+                    run.count(f"{prefix}int_value_given_as_float:{how}:"
+                              f"{'base' if i == 0 else 'chained'}:{c['k']}")
             if c["k"] == "str_length" and (a["min_value"] is None or a["max_value"] is None):
                 run.count(f"{prefix}str_length_optional_arg_None")
             if c["k"].startswith("str_") and any(
@@ -737,6 +787,30 @@ def count_case_classes(run, case, prefix):
         run.count(f"{prefix}df_unique")
     if case.get("df_dtype"):
         run.count(f"{prefix}df_dtype")
+    if case["kind"] == "frame":
+        if case.get("ordered"):
+            run.count(f"{prefix}frame_option:ordered")
+            if any(f.get("regex") for f in case["fields"]):
+                run.count(f"{prefix}frame_option:ordered:with_regex_column")
+            if G.regex_before_plain(case):
+                run.count(f"{prefix}frame_option:ordered:regex_column_before_plain_column")
+            if len(case["fields"]) >= 2:
+                run.count(f"{prefix}frame_option:ordered:2+_declared_columns")
+        if case.get("strict"):
+            run.count(f"{prefix}frame_option:strict={case['strict']}")
+            if any(f.get("regex") for f in case["fields"]):
+                run.count(f"{prefix}frame_option:strict:with_regex_column")
+
+
+def fractional_base_bound(case):
+    """an integer field whose FIRST check is an ordered bound with a fraction"""
+    for f in all_fields(case):
+        if f["cls"] == "int" and f["checks"]:
+            c = f["checks"][0]
+            if c["k"] in ("gt", "ge", "lt", "le", "in_range") and any(
+                    G.is_fractional(c["a"].get(n)) for n in ("min_value", "max_value")):
+                return True
+    return False
 
 
 def run_sequence(run, cases, hseeds, n, verbose=False, limit=None, replaying=None):
@@ -833,6 +907,14 @@ def _one_case(run, case, hseed, n, verbose, limit, cold, schema, prelude, out):
         return
 
     # ---- satisfiable family ---------------------------------------------
+    if fractional_base_bound(case):
+        # the base strategy has to turn the fraction into an integer bound on
+        # the admitted side - or report that it cannot; both are counted, only
+        # emitted data is judged (below)
+        run.count(P + "ran:int_fractional_bound_as_base")
+        run.count(P + "ran:int_fractional_bound_as_base:" + (
+            "draws_returned(judged)" if draws else
+            "strategy_reported(not judged)" if exc is not None else "nothing"))
     if exc is not None:
         run.count(P + "undecided:strategy_raised")
         run.count(P + f"undecided:strategy_raised:{type(exc).__name__}")
@@ -1025,7 +1107,7 @@ FLOORS_QUICK = {
     "judged:with_index:single": 6, "judged:with_index:multi": 2,
     "judged:chain_len:1": 40, "judged:chain_len:2": 40, "judged:chain_len:3": 20,
     "distinct_ordered_check_pairs_judged": 50,
-    "dtypes_judged": len(G.ALL_DTYPES) - 2, "directed_corpus_cases": 29,
+    "dtypes_judged": len(G.ALL_DTYPES) - 2, "directed_corpus_cases": 44,
     "sizes_judged": 7,
     # classes added for the order of the strategy's steps, state carried from
     # one schema's strategy to the next, and falsy / foreign-typed arguments
@@ -1049,6 +1131,16 @@ FLOORS_QUICK = {
     "judged:regex_column:n_regex_columns>1": 9,
     "judged:regex_column:frame_has:df_checks": 1, "judged:regex_column:frame_has:df_dtype": 1,
     "judged:regex_column:frame_has:df_unique": 1, "judged:regex_column:frame_has:index": 2,
+    # schema-wide column order / column set options; arguments of checks on
+    # integer fields written as floats (minimum over seeds 0,1,2,3,12345 / 4)
+    "judged:frame_option:ordered": 11,
+    "judged:frame_option:ordered:regex_column_before_plain_column": 2,
+    "judged:frame_option:strict=True": 13, "judged:frame_option:strict=filter": 6,
+    "judged:int_bound_given_as_float:fractional": 4,
+    "judged:int_bound_given_as_float:integral": 4,
+    "judged:int_value_given_as_float:fractional": 2,
+    "judged:int_value_given_as_float:integral": 2,
+    "ran:int_fractional_bound_as_base": 11,
     # draws in which the null mask was seen at work in generated columns
     "observed:regex:nullable_column_with_null:unique=1": 25,
     "observed:regex:nullable_column_with_2+_nulls:unique=0": 13,
